@@ -123,26 +123,37 @@ func (c *ctx) docIndexFor(conn int) (int, bool) {
 				accepted = append(accepted, int(e.A))
 			}
 		}
-		k, lastStep := 0, -1
-		sawTaken := false
+		var taken []int // step in which the loader took the k-th accepted configuration
 		for _, e := range c.r.Events {
-			switch {
-			case e.Kind == "config-taken":
-				k++
-				lastStep = e.Step
-				sawTaken = true
-			case e.Kind == "get-begin" && e.Conn == conn:
-				if e.Step == lastStep {
-					return 0, false
+			if e.Kind == "config-taken" {
+				for len(taken) <= int(e.A) {
+					taken = append(taken, -1)
 				}
-			case e.Kind == "get-end" && e.Conn == conn:
-				if e.Step == lastStep || k == 0 || k > len(accepted) {
-					return 0, false
-				}
-				return accepted[k-1], true
+				taken[int(e.A)] = int(e.B)
 			}
 		}
-		if sawTaken {
+		if len(taken) > 0 {
+			for _, e := range c.r.Events {
+				if e.Kind != "get-end" || e.Conn != conn {
+					continue
+				}
+				k := -1
+				for i, st := range taken {
+					if st < 0 {
+						continue
+					}
+					if st == e.Step {
+						return 0, false // taken in the very step of this admission: either may apply
+					}
+					if st < e.Step {
+						k = i
+					}
+				}
+				if k < 0 || k >= len(accepted) {
+					return 0, false
+				}
+				return accepted[k], true
+			}
 			return 0, false
 		}
 	}
